@@ -185,6 +185,10 @@ func (c *c01Cluster) mlViews() string {
 }
 
 func c01Exec(ops []string) []string {
+	// single-observer cases: one real node driven through its delegates (executor of node.go)
+	if len(ops) > 0 && ops[0] == "single" {
+		return append([]string{"ok"}, nodeExec(ops[1:])...)
+	}
 	var cl *c01Cluster
 	defer func() {
 		if cl != nil {
@@ -546,6 +550,30 @@ func c01Gen(rng *rand.Rand, tier string) []Case {
 		}
 		ops = append(ops, "settle "+t.expected())
 		out = append(out, Case{ID: fmt.Sprintf("s%d", i), Ops: ops, Nontrivial: nt || steps >= 3, Tags: []string{fmt.Sprintf("k%d", k)}})
+	}
+	// single-observer cases (observer-local half of the property): a member announces its leave, crashes or leaves,
+	// comes back …; memberlist's death notification worded StateDead or StateLeft
+	ns := 12
+	if tier == "thorough" {
+		ns = 300
+	}
+	for i := 0; i < ns; i++ {
+		x := hexs([]string{"a", "b", "node d"}[rng.Intn(3)])
+		ops := []string{"single", "nj " + x}
+		t := 1 + rng.Intn(5)
+		word := func() string { return []string{"d", "l"}[rng.Intn(2)] }
+		switch rng.Intn(4) {
+		case 0, 1: // graceful leave, then gone
+			ops = append(ops, fmt.Sprintf("ml %s %d 0", x, t), fmt.Sprintf("nl %s 1 %s", x, word()))
+		case 2: // crash, force-leave
+			ops = append(ops, fmt.Sprintf("nl %s 1 %s", x, word()), fmt.Sprintf("ml %s %d 0", x, t))
+		default: // crash, back, graceful leave, gone
+			ops = append(ops, fmt.Sprintf("nl %s 0 %s", x, word()), "nj "+x, fmt.Sprintf("ml %s %d 0", x, t), fmt.Sprintf("nl %s 2 %s", x, word()))
+		}
+		if rng.Intn(2) == 0 {
+			ops = append(ops, "ls", "s2 "+x)
+		}
+		out = append(out, Case{ID: fmt.Sprintf("single%d", i), Ops: ops, Nontrivial: true, Tags: []string{"single-observer"}})
 	}
 	return out
 }
